@@ -1142,7 +1142,7 @@ def _generated(model, extra):
             skipped += 1
             continue
         try:
-            new = optimise(prg, [trait])
+            new = optimise(prg, [] if trait == "none" else [trait])
         except Exception as e:  # pylint: disable=broad-except
             problems.append({"program": prg, "traits": [trait], "exception": repr(e)})
             continue
